@@ -66,12 +66,14 @@ enum { H_MALLOC, H_CALLOC, H_REALLOC, H_STRDUP, H_STRNDUP, H_NEW, H_NEWARR, H_NE
        H_DET_SEP, H_DET_INLINE, H_DET_REALLOC, H_FREE,
        H_SZ_SMALL, H_SZ_PAGE, H_SZ_LIMIT, H_SZ_MID, H_SZ_2G, H_SZ_TOP, H_PRODUCT_OVERFLOW, H_PRODUCT_4G,
        H_FAULT_DATA, H_FAULT_NODE, H_FAULT_REALLOC, H_FAULT_WHILE_LIVE,
-       H_OK, H_CLEAN_FAIL, H_REFUSED, H_NCLS };
+       H_OK, H_CLEAN_FAIL, H_REFUSED, H_PLAIN_ENTRY, H_INT_LINE, H_DEL_SIZED, H_DEL_NOTHROW, H_DEL_PLACEMENT, H_DET_NOLOC, H_REALLOC_FOREIGN, H_NCLS };
 const char* const h_name[H_NCLS] = { "cpputest_malloc", "cpputest_calloc", "cpputest_realloc", "cpputest_strdup", "cpputest_strndup", "new", "new[]",
        "nothrow-new", "nothrow-new[]", "new(file,line)", "new[](file,line)", "detector-alloc-separate-record", "detector-alloc-inline-record", "detector-realloc", "free",
        "size:0..4200", "size:page-multiples+-", "size:around-1MiB-limit", "size:1MiB..2^31", "size:>=2^31", "size:top-128", "product-overflows", "product-around-2^32",
        "fault:data-block", "fault:bookkeeping-record", "fault:platform-realloc", "fault-while-blocks-live",
-       "outcome:block", "outcome:clean-failure", "underlying-allocator-refused(>1MiB)" };
+       "outcome:block", "outcome:clean-failure", "underlying-allocator-refused(>1MiB)",
+       "plain-entry-point(cpputest_malloc/calloc/realloc/strdup/strndup/free without file,line)", "new(file,int line)", "sized-delete", "nothrow-delete", "delete(p,file,line)",
+       "detector-api-without-file,line", "realloc-of-foreign-pointer" };
 unsigned g_h[H_NCLS];
 
 // listed findings: flags read once (verif::known() allocates); exclusions counted in fixed counters, booked after the case
@@ -193,8 +195,8 @@ Reporter* g_reporter; MemoryLeakDetector* g_detector;
 RecAlloc *g_am, *g_an, *g_aa;        // malloc / new / new[] families
 
 // ---- decoded script ------------------------------------------------------------------------------------------------
-enum Kind { O_MALLOC, O_CALLOC, O_REALLOC, O_STRDUP, O_STRNDUP, O_NEW, O_NEWARR, O_NEW_NT, O_NEWARR_NT, O_NEW_DBG, O_NEWARR_DBG, O_DET_ALLOC, O_DET_REALLOC, O_FREE };
-struct Op { uint8_t kind; size_t size; size_t num; size_t n; uint8_t slot; bool sep; bool f_data, f_node, f_realloc; uint16_t str_off, str_len; };
+enum Kind { O_MALLOC, O_CALLOC, O_REALLOC, O_STRDUP, O_STRNDUP, O_NEW, O_NEWARR, O_NEW_NT, O_NEWARR_NT, O_NEW_DBG, O_NEWARR_DBG, O_DET_ALLOC, O_DET_REALLOC, O_FREE, O_REALLOC_FOREIGN };
+struct Op { uint8_t kind; size_t size; size_t num; size_t n; uint8_t slot; uint8_t form; bool sep; bool f_data, f_node, f_realloc; uint16_t str_off, str_len; };
 const int MAXOPS = 28;
 char g_text[1024];                                  // strdup sources: g_text + off, NUL at off + len put in place for the call
 
@@ -273,18 +275,30 @@ struct Interp {
         memset(p, u.pat, size);                                  // every usable byte is written (ASan: exact-size underlying blocks)
         ub[nub++] = u; g_h[H_OK]++;
     }
-    void release_raw(char* p, int fam, bool sep) {
-        if (fam == 0) cpputest_free_location(p, "free.c", 9);
-        else if (fam == 1) ::operator delete(p);
-        else if (fam == 2) ::operator delete[](p);
+    // form selects among the equivalent release functions of the block's family (0 = the one used since the first version)
+    void release_raw(char* p, int fam, bool sep, size_t size = 0, unsigned form = 0) {
+        if (fam == 0) { if (form & 1) { g_h[H_PLAIN_ENTRY]++; cpputest_free(p); } else cpputest_free_location(p, "free.c", 9); }
+        else if (fam == 1) switch (form % 5) {
+            default: ::operator delete(p); break;
+            case 1: g_h[H_DEL_SIZED]++; ::operator delete(p, size); break;
+            case 2: g_h[H_DEL_NOTHROW]++; ::operator delete(p, std::nothrow); break;
+            case 3: g_h[H_DEL_PLACEMENT]++; ::operator delete(p, "free.c", (int)9); break;
+            case 4: g_h[H_DEL_PLACEMENT]++; ::operator delete(p, "free.c", (size_t)9); break; }
+        else if (fam == 2) switch (form % 5) {
+            default: ::operator delete[](p); break;
+            case 1: g_h[H_DEL_SIZED]++; ::operator delete[](p, size); break;
+            case 2: g_h[H_DEL_NOTHROW]++; ::operator delete[](p, std::nothrow); break;
+            case 3: g_h[H_DEL_PLACEMENT]++; ::operator delete[](p, "free.c", (int)9); break;
+            case 4: g_h[H_DEL_PLACEMENT]++; ::operator delete[](p, "free.c", (size_t)9); break; }
+        else if (form & 1) { g_h[H_DET_NOLOC]++; g_detector->deallocMemory(g_am, p, sep); }
         else g_detector->deallocMemory(g_am, p, "free.c", 9, sep);
     }
-    void release(int i, const char* when) {
+    void release(int i, const char* when, unsigned form = 0) {
         UB u = ub[i];
         if (!content_ok(u, u.size)) { bad("C05:live-block-modified", "%s: the contents of block #%d (%zu bytes) changed before its release", when, i, u.size); return; }
         Blk* h = blk_host(u.p, u.size);
         g_seam.begin(false, 0, false);
-        release_raw(u.p, u.fam, u.sep);
+        release_raw(u.p, u.fam, u.sep, u.size, form);
         ub[i] = ub[--nub]; g_h[H_FREE]++;
         if (g_reporter->calls) { bad("C05:detector-reported-failure", "%s of a live block (%zu bytes): %.300s", when, u.size, g_reporter->first); return; }
         if (g_seam.data_frees != 1 || !h || g_seam.freed_base != h->base) { bad("C05:underlying-release-wrong", "%s of a %zu-byte block released %d underlying data blocks (expected exactly its own)", when, u.size, g_seam.data_frees); return; }
@@ -321,6 +335,10 @@ struct Interp {
         if ((f_data || f_node) && src && excluded(X_STRDUP)) f_data = f_node = false;      // any fault that makes its malloc answer NULL
         if (!overflow) size_class(size); else { g_h[H_PRODUCT_OVERFLOW]++; nontrivial = true; }
         g_h[h]++;
+        bool alt = (o.form & 1) != 0;       // the equivalent second form of the entry point: without file/line, or with an int line
+        if (alt && (o.kind == O_MALLOC || o.kind == O_CALLOC || o.kind == O_STRDUP || o.kind == O_STRNDUP)) g_h[H_PLAIN_ENTRY]++;
+        if (alt && (o.kind == O_NEW_DBG || o.kind == O_NEWARR_DBG)) g_h[H_INT_LINE]++;
+        if (alt && o.kind == O_DET_ALLOC) g_h[H_DET_NOLOC]++;
         if (f_data) g_h[H_FAULT_DATA]++; if (f_node) g_h[H_FAULT_NODE]++;
         if ((f_data || f_node) && nub > 0) { g_h[H_FAULT_WHILE_LIVE]++; nontrivial = true; }
         g_seam.begin(!overflow, size, !sep); g_seam.fail_data = f_data; g_seam.fail_node = f_node;
@@ -328,17 +346,17 @@ struct Interp {
         char saved = 0; if (src) { saved = g_text[o.str_off + o.str_len]; g_text[o.str_off + o.str_len] = 0; }
         auto call = [&] {
             switch (o.kind) {
-            case O_MALLOC: p = (char*)cpputest_malloc_location(size, file, line); break;
-            case O_CALLOC: p = (char*)cpputest_calloc_location(o.num, o.size, file, line); break;
-            case O_STRDUP: p = cpputest_strdup_location(src, file, line); break;
-            case O_STRNDUP: p = cpputest_strndup_location(src, o.n, file, line); break;
+            case O_MALLOC: p = (char*)(alt ? cpputest_malloc(size) : cpputest_malloc_location(size, file, line)); break;
+            case O_CALLOC: p = (char*)(alt ? cpputest_calloc(o.num, o.size) : cpputest_calloc_location(o.num, o.size, file, line)); break;
+            case O_STRDUP: p = alt ? cpputest_strdup(src) : cpputest_strdup_location(src, file, line); break;
+            case O_STRNDUP: p = alt ? cpputest_strndup(src, o.n) : cpputest_strndup_location(src, o.n, file, line); break;
             case O_NEW: try { p = (char*)::operator new(size); } catch (const std::bad_alloc&) { threw = true; } break;
-            case O_NEW_DBG: try { p = (char*)::operator new(size, file, line); } catch (const std::bad_alloc&) { threw = true; } break;
+            case O_NEW_DBG: try { p = (char*)(alt ? ::operator new(size, file, (int)line) : ::operator new(size, file, line)); } catch (const std::bad_alloc&) { threw = true; } break;
             case O_NEW_NT: try { p = (char*)::operator new(size, std::nothrow); } catch (...) { threw = true; } break;
             case O_NEWARR: try { p = (char*)::operator new[](size); } catch (const std::bad_alloc&) { threw = true; } break;
-            case O_NEWARR_DBG: try { p = (char*)::operator new[](size, file, line); } catch (const std::bad_alloc&) { threw = true; } break;
+            case O_NEWARR_DBG: try { p = (char*)(alt ? ::operator new[](size, file, (int)line) : ::operator new[](size, file, line)); } catch (const std::bad_alloc&) { threw = true; } break;
             case O_NEWARR_NT: try { p = (char*)::operator new[](size, std::nothrow); } catch (...) { threw = true; } break;
-            case O_DET_ALLOC: p = g_detector->allocMemory(g_am, size, file, line, sep); break;
+            case O_DET_ALLOC: p = alt ? g_detector->allocMemory(g_am, size, sep) : g_detector->allocMemory(g_am, size, file, line, sep); break;
             }
         };
         if (f_node) {
@@ -399,7 +417,8 @@ struct Interp {
         UB old{}; if (idx >= 0) { old = ub[idx]; if (!content_ok(old, old.size)) { bad("C05:live-block-modified", "block #%d changed before realloc", idx); return; } }
         g_seam.begin(true, size, !sep); g_seam.fail_realloc = f_re; g_seam.fail_node = f_node;
         char* q = nullptr; bool crashed = false;
-        auto call = [&] { q = det ? g_detector->reallocMemory(g_am, idx >= 0 ? old.p : nullptr, size, file, line, sep) : (char*)cpputest_realloc_location(idx >= 0 ? old.p : nullptr, size, file, line); };
+        auto call = [&] { q = det ? g_detector->reallocMemory(g_am, idx >= 0 ? old.p : nullptr, size, file, line, sep) : (o.form & 1) ? (char*)cpputest_realloc(idx >= 0 ? old.p : nullptr, size) : (char*)cpputest_realloc_location(idx >= 0 ? old.p : nullptr, size, file, line); };
+        if (!det && (o.form & 1)) g_h[H_PLAIN_ENTRY]++;
         if (f_node) {
             int& probe = g_record_fault_probe[1];
             if (probe == 0) probe = child_dies(call) ? 1 : 2;
@@ -441,11 +460,26 @@ struct Interp {
         accept(q, size, want, sep, what, false, nullptr);
     }
 
+    // realloc of a pointer the detector never handed out: one report, NULL, the platform realloc is not asked to touch the foreign
+    // memory, and (checked by the survey that follows every operation) every existing block stays valid and tracked
+    void realloc_foreign(const Op& o, const char* file, size_t line) {
+        static char foreign[64];
+        g_h[H_REALLOC_FOREIGN]++;
+        g_seam.begin(false, 0, false);
+        char* q = (o.form & 1) ? (char*)cpputest_realloc(foreign + 16, 1 + o.slot) : (char*)cpputest_realloc_location(foreign + 16, 1 + o.slot, file, line);
+        int reports = g_reporter->calls; g_reporter->calls = 0;
+        desc("cpputest_realloc(foreign pointer, %d) -> %s, %d report(s)", 1 + o.slot, q ? "block" : "NULL", reports);
+        if (q) { bad("C05:realloc-of-foreign-pointer-returned-block", "cpputest_realloc of a pointer that is not a tracked block returned %p", (void*)q); return; }
+        if (g_seam.realloc_calls) { bad("C05:foreign-pointer-passed-to-platform-realloc", "cpputest_realloc of a pointer that is not a tracked block handed it to the platform realloc"); return; }
+        if (reports != 1) bad("C05:realloc-of-foreign-pointer-not-reported-once", "cpputest_realloc of a pointer that is not a tracked block raised %d reports", reports);
+    }
+
     void run(const Op* ops, int nops) {
         static const char* const files[3] = { "alloc_a.c", "alloc_b.cpp", "dir/alloc_c.c" };
         for (int i = 0; i < nops && !g_bad; i++) {
             const Op& o = ops[i]; const char* file = files[i % 3]; size_t line = 100 + (size_t)i;
-            if (o.kind == O_FREE) { if (nub) release(o.slot % nub, "free"); }
+            if (o.kind == O_FREE) { if (nub) release(o.slot % nub, "free", o.form); }
+            else if (o.kind == O_REALLOC_FOREIGN) realloc_foreign(o, file, line);
             else if (o.kind == O_REALLOC || o.kind == O_DET_REALLOC) reallocate(o, file, line);
             else allocate(o, file, line);
             if (!g_bad) survey("after the operation", false);
@@ -486,10 +520,10 @@ void decode(Reader& r, Op* ops, int& nops, uint32_t mode) {
         Op o{};
         static const uint8_t lattice[] = { O_DET_ALLOC, O_DET_ALLOC, O_MALLOC, O_NEW, O_NEWARR, O_NEW_NT, O_CALLOC, O_DET_REALLOC, O_REALLOC, O_NEWARR_NT, O_NEW_DBG, O_NEWARR_DBG };
         static const uint8_t script[] = { O_MALLOC, O_MALLOC, O_CALLOC, O_CALLOC, O_REALLOC, O_REALLOC, O_STRDUP, O_STRNDUP, O_NEW, O_NEWARR, O_NEW_NT, O_NEWARR_NT, O_NEW_DBG, O_NEWARR_DBG,
-                                          O_DET_ALLOC, O_DET_ALLOC, O_DET_REALLOC, O_FREE, O_FREE, O_FREE };
+                                          O_DET_ALLOC, O_DET_ALLOC, O_DET_REALLOC, O_FREE, O_FREE, O_FREE, O_REALLOC_FOREIGN };
         o.kind = mode == 0 ? lattice[r.below(sizeof lattice)] : script[r.below(sizeof script)];
         uint32_t v = r.below(256);
-        o.slot = (uint8_t)v; o.sep = (v & 1) == 0;
+        o.slot = (uint8_t)v; o.sep = (v & 1) == 0; o.form = (uint8_t)((v >> 2) & 7);     // form 0 = the entry point as first written
         if (mode == 2) { uint32_t f = r.below(8); o.f_data = f == 1 || f == 4; o.f_node = f == 2 || f == 5; o.f_realloc = f == 3 || f == 4 || f == 6; }
         else if (mode == 1 && v >= 240) { o.f_data = true; o.f_realloc = true; }
         switch (o.kind) {
@@ -500,7 +534,7 @@ void decode(Reader& r, Op* ops, int& nops, uint32_t mode) {
             static const size_t ns[] = { 0, 1, 5, 64, SIZE_MAX, SIZE_MAX / 2 }; uint32_t sel = r.below(10);
             o.n = sel < 6 ? ns[sel] : sel == 6 ? len : sel == 7 ? len + 1 : sel == 8 ? (len ? len - 1 : 0) : r.below(310);
             break; }
-        case O_FREE: break;
+        case O_FREE: case O_REALLOC_FOREIGN: break;
         default: o.size = mode == 0 || r.below(3) == 0 ? gen_size(r) : (r.flag() ? r.below(200) : r.below(4201)); break;
         }
         ops[i] = o;
